@@ -163,10 +163,46 @@ static int op_f_run(void) {
     if (!strcmp(f, "ellswift.swiftec_var")) { secp256k1_fe fu, ft; if (!f_fe("u", NULL, &fu) || !f_fe("t", NULL, &ft)) return -1; secp256k1_ellswift_swiftec_var(&gr, &fu, &ft); f_out_fe(&gr.x); f_out_fe(&gr.y); return 1; }
     if (!strcmp(f, "ellswift.xswiftec_inv_var")) { secp256k1_fe fx, fu, ft; int rv, c; const char *v; if (!f_fe("x_in", NULL, &fx) || !f_fe("u_in", NULL, &fu) || !f_find("c", &v)) return -1; c = (int)strtoul(v, NULL, 16); secp256k1_fe_set_int(&ft, 0); rv = secp256k1_ellswift_xswiftec_inv_var(&ft, &fx, &fu, c); if (rv) f_out_fe(&ft); else out_str("-"); out_int(rv); return 1; }
 #endif
+#ifdef ENABLE_MODULE_GENERATOR
+    if (!strcmp(f, "generator.svdw")) { secp256k1_fe ft; if (!f_fe("t", NULL, &ft)) return -1; shallue_van_de_woestijne(&gr, &ft); f_out_ge(&gr); return 1; }
+#endif
     if (!strcmp(f, "ellswift.ge_set_gej")) { if (!f_gej("a", &ja) || ja.infinity) return -1; secp256k1_ge_set_gej(&gr, &ja); f_out_ge(&gr); return 1; }
     if (!strcmp(f, "ellswift.ge_set_gej_var")) { if (!f_gej("a", &ja)) return -1; secp256k1_ge_set_gej_var(&gr, &ja); f_out_ge(&gr); return 1; }
     (void)ga; (void)jb;
     out_str("skip");
     return 1;
 }
-static int ops_kernel(const char *op) { if (!strcmp(op, "k_run")) return op_k_run(); if (!strcmp(op, "f_run")) return op_f_run(); return 0; }
+/* p_run Pecdsa.<def> <positional args> : the REAL scalar/point-level core functions (mode P translation validation) */
+static int p_scalar(int i, secp256k1_scalar *s) { if (!A(i)->is_hex || A(i)->n != 32) return 0; secp256k1_scalar_set_b32(s, A(i)->b, NULL); return 1; }
+static int op_p_run(void) {
+    const char *f; secp256k1_scalar r, s, m, sec, k; secp256k1_ge q; int recid = 0, ret;
+    if (g_argc < 1) return -1;
+    f = A(0)->s;
+    if (!strcmp(f, "Pecdsa.sig_verify")) {
+        if (g_argc != 5 || !p_scalar(1, &r) || !p_scalar(2, &s) || !tok_ge(3, &q) || !p_scalar(4, &m) || q.infinity) return -1;
+        out_int(secp256k1_ecdsa_sig_verify(&r, &s, &q, &m)); return 1;
+    }
+    if (!strcmp(f, "Pecdsa.sig_sign")) {
+        if (g_argc != 4 || !p_scalar(1, &sec) || !p_scalar(2, &m) || !p_scalar(3, &k) || secp256k1_scalar_is_zero(&k)) return -1;
+        ret = secp256k1_ecdsa_sig_sign(&CTX->ecmult_gen_ctx, &r, &s, &sec, &m, &k, &recid);
+        out_int(ret); out_scalar(&r); out_scalar(&s); out_int(recid); return 1;
+    }
+#ifdef ENABLE_MODULE_RECOVERY
+    if (!strcmp(f, "Pecdsa.sig_recover")) {
+        if (g_argc != 5 || !p_scalar(1, &r) || !p_scalar(2, &s) || !p_scalar(3, &m)) return -1;
+        recid = atoi(A(4)->s); if (recid < 0 || recid > 3) return -1;
+        ret = secp256k1_ecdsa_sig_recover(&r, &s, &q, &m, recid);
+        out_int(ret); if (ret) out_ge(&q); else out_str("-"); return 1;
+    }
+#endif
+#ifdef ENABLE_MODULE_SCHNORRSIG
+    if (!strcmp(f, "Pschnorr.verify")) {
+        secp256k1_pubkey pk;
+        if (g_argc != 4 || !A(1)->is_hex || A(1)->n != 64 || !(A(2)->is_hex || !strcmp(A(2)->s, "-")) || !tok_pubkey(3, &pk)) return -1;
+        out_int(secp256k1_schnorrsig_verify(CTX, A(1)->b, A(2)->b, A(2)->n, (secp256k1_xonly_pubkey*)&pk)); out_ill(); return 1;
+    }
+#endif
+    out_str("skip");
+    return 1;
+}
+static int ops_kernel(const char *op) { if (!strcmp(op, "k_run")) return op_k_run(); if (!strcmp(op, "f_run")) return op_f_run(); if (!strcmp(op, "p_run")) return op_p_run(); return 0; }
